@@ -181,9 +181,7 @@ def validate(seed, tier):
     rng = np.random.default_rng(seed)
     n = 0
     for model, L, d in (('ising', 4, 2), ('heisenberg_xxz', 4, 2), ('heisenberg_xxz_spin1', 3, 3), ('bose_hubbard', 3, 3), ('fermi_hubbard', 2, 4)):
-        f = concrete.CHECKS['schmidt_rank'](dict(model=model, L=L, d=d, params=[float(x) for x in rng.standard_normal(3)]))
-        if f:
-            raise runner.HarnessError(f'numerical Schmidt-rank check fails on the unchanged tree: {f}')
+        runner.concrete_check('schmidt_rank', dict(model=model, L=L, d=d, params=[float(x) for x in rng.standard_normal(3)]))
         n += 1
     return dict(concrete_inputs_checked=n)
 
